@@ -158,13 +158,21 @@ def run (co cc : Clock) : Nat → List Op → State → MErr (State × List Nat)
     let r ← run co cc (n + 1) ops s1
     pure (r.1, if op = .read then totalTime s :: r.2 else r.2)
 
+/-- the same state with `cell` tabulated over `keys` (for execution only: `step` wraps one more
+closure around `cell` per call, and `suspend` / `resume` consult it several times per timer, so an
+untabulated run costs time exponential in the number of calls; on a well-formed state — `cell` is
+`none` outside `keys` — this is the identity, `Lemmas/LoopTimers.lean: norm_cell`) -/
+def State.norm (s : State) : State :=
+  let tbl := s.keys.map fun p => (p, s.cell p)
+  { s with cell := fun q => match tbl.lookup q with | some c => c | none => none }
+
 /-- `run` that also says where it stopped: `(index of the first call that panics, the state before
 that call (the final state if none does), the `total_time()` readings so far)` -/
 def runUntil (co cc : Clock) : Nat → List Op → State → List Nat → Option Nat × State × List Nat
   | _, [], s, rs => (none, s, rs)
   | n, op :: ops, s, rs =>
     match step (co n) (cc n) op s with
-    | .ok s1 => runUntil co cc (n + 1) ops s1 (if op = .read then rs ++ [totalTime s] else rs)
+    | .ok s1 => runUntil co cc (n + 1) ops s1.norm (if op = .read then rs ++ [totalTime s] else rs)
     | .error _ => (some n, s, rs)
 
 /-! ### the call sequences of the solver -/
